@@ -60,8 +60,10 @@ Lemma l_load_immediate : forall t i, len (a_load_immediate t i) <= 5.
 Proof. intros t i; destruct t as [r|p]; cbn [a_load_immediate]; sl; [pose proof (l_imm_code r i) | pose proof (l_imm_code TEMP i)]; lia. Qed.
 Lemma l_load_label : forall t l, len (a_load_label t l) <= 2.
 Proof. intros t l; destruct t; cbn [a_load_label]; sl; lia. Qed.
-Lemma l_add_and_jump : forall t i, len (a_add_and_jump t i) <= 3.
-Proof. intros t i; destruct t; cbn [a_add_and_jump]; sl; lia. Qed.
+Lemma l_add_offset : forall r i, len (add_offset r i) <= 5.
+Proof. intros r i. unfold add_offset. destruct (add_imm_fits i); sl; [lia|]. pose proof (l_imm_code TEMP2 i). lia. Qed.
+Lemma l_add_and_jump : forall t i, len (a_add_and_jump t i) <= 7.
+Proof. intros t i; destruct t as [r|p]; cbn [a_add_and_jump]; sl; [pose proof (l_add_offset r i)|pose proof (l_add_offset TEMP i)]; lia. Qed.
 Lemma l_mov : forall t s, len (a_mov t s) <= 2.
 Proof. intros t s; destruct t, s; cbn [a_mov move_from_register move_to_register]; sl; lia. Qed.
 Lemma l_store_temporary : forall t f, len (a_store_temporary t f) <= 2.
